@@ -61,7 +61,7 @@ func main() {
 		}
 		rel, _ := filepath.Rel(repo, p)
 		if info.IsDir() {
-			if rel == "test" || rel == "example" || rel == ".git" || strings.HasPrefix(filepath.Base(p), ".") && rel != "." || rel == "zvsync" || rel == "zvlru" || rel == "zvatomic" || strings.HasPrefix(rel, "zvext") {
+			if rel == "test" || rel == "example" || rel == ".git" || strings.HasPrefix(filepath.Base(p), ".") && rel != "." || rel == "zvsync" || rel == "zvlru" || rel == "zvatomic" || strings.HasPrefix(rel, "zvext") || rel == "zvlitmus" || rel == "zvsingleflight" || rel == "zverrgroup" {
 				return filepath.SkipDir
 			}
 			return nil
@@ -107,6 +107,9 @@ func main() {
 	}
 	replace[filepath.Join(repo, "zvlru", "lru.go")] = filepath.Join(self, "engine", "zvlru", "lru.go")
 	replace[filepath.Join(repo, "zvatomic", "atomic.go")] = filepath.Join(self, "engine", "zvatomic", "atomic.go")
+	// plain Go that exercises the rewriter itself (engine/zvlitmus): rewritten like everything else
+	extPkgs["verif/zvlitmus"] = "zvlitmus"
+	extDirs["verif/zvlitmus"] = filepath.Join(self, "engine", "zvlitmus")
 	for pkg, dir := range extDirs {
 		ents, err := os.ReadDir(dir)
 		if err != nil {
